@@ -656,6 +656,7 @@ fn eval_c27(case: &FmtCase, acc: &Acc) -> Vec<Violation> {
         }
         Err((class, e)) => out.push(mkv(&format!("second_{class}"), format!("{short} [{opts}]: {e}; first result {:?}", f1))),
     }
+    acc.fallback(|| json!({"text": case.text, "options": opts}));
     if acc.want_sample() && !c0.is_empty() {
         acc.sample(json!({"text": case.text, "options": opts, "formatted": f1}));
     }
